@@ -78,6 +78,8 @@ LONG = {
         f"journal entry number {k} with some more words to make the line long enough\n" for k in range(140)),
 }
 LONG_EVENTS = ["edit_long_tail", "edit_body_a", "add_note_a", "R", "Rp", "D"]
+# on a machine whose local calendar day is not the UTC calendar day (00:30 at UTC+2, 19:30 at UTC-8)
+ZONE_EVENTS = ["edit_body_a", "kind_a", "add_note_a", "R", "Rp", "D"]
 
 EVENTS = ["edit_body_a", "kind_a", "add_note_a", "del_note_a", "move_note", "add_page_c",
           "del_page_b", "rename_b_d", "restore_b", "title_tags_a", "header_b", "drop_last_tag", "del_note_t", "break_z", "fix_z",
@@ -305,6 +307,15 @@ def _first_page_diff(a: dict, b: dict):
 
 
 def step(st: B.St, ev: str) -> B.StepResult:
+    # the zone of the machine is part of the state ("today" is the LOCAL calendar day)
+    H.set_zone(st.extra.get("zone", "utc-noon"))
+    try:
+        return _step(st, ev)
+    finally:
+        H.set_zone()
+
+
+def _step(st: B.St, ev: str) -> B.StepResult:
     src = Path(st.path)
     guards = dict(st.guards)
     day = st.day
@@ -342,10 +353,11 @@ def step(st: B.St, ev: str) -> B.StepResult:
                 return res
         hist = st.hist + [ev]
         new = B.St(path=str(zd), day=day, hist=hist, guards=guards, extra=dict(st.extra))
-        new.key = H.digest([D.state_digest(zd, day), sorted(guards.items())])
+        new.key = H.digest([D.state_digest(zd, day), sorted(guards.items()), st.extra.get("zone", "utc-noon")])
         if problem:
             detail = dict(problem[1])
-            detail.update({"history": hist, "day": day.isoformat(), "files": Z.snapshot(zd, with_meta=False)})
+            detail.update({"history": hist, "day": day.isoformat(), "zone": st.extra.get("zone", "utc-noon"),
+                           "files": Z.snapshot(zd, with_meta=False)})
             problem = (problem[0], detail)
         return B.StepResult(new, problem, judged, 1, nontrivial=judged and any(
             h not in ("R", "Rp", "D") for h in hist))
@@ -420,6 +432,21 @@ def make_inits(day: dt.date):
     return inits
 
 
+def make_zone_inits(day: dt.date):
+    """The indexed directory one day later, on a machine that is not on UTC."""
+    out = []
+    for zone in ("east-night", "west-evening"):
+        zd = Z.make_zdir(BASE, "c06z")
+        r = Z.db_create(zd, day)
+        if not Z.cli_ok(r):
+            raise H.HarnessError("zone db create failed: " + r.err[-500:])
+        d = day + dt.timedelta(days=1)
+        s = B.St(path=str(zd), day=d, hist=[], guards={"days": 1}, extra={"init": "indexed@" + zone, "zone": zone})
+        s.key = H.digest([D.state_digest(zd, d), [("days", 1)], zone])
+        out.append(s)
+    return out
+
+
 def make_long_init(day: dt.date):
     lz = Z.make_zdir({"a.zo": BASE["a.zo"], "sub/b.zo": BASE["sub/b.zo"], **LONG}, "c06l")
     r = Z.db_create(lz, day)
@@ -447,7 +474,7 @@ def run(ctx: F.Ctx):
             "pending; same after an earlier stamped edit; same after a page was deleted and the "
             "index followed; same after a new page was added, the last page broken and a plain "
             "reindex refused; same after one run that wrote a ZID back, dropped a vanished page and took in a new page), "
-            "plus a small directory with a 140-note page of 12 KiB whose LAST note is edited (events: that edit, a body edit, a new note, R, Rp, D), over 18 events: edit a body, change a "
+            "plus the indexed directory one day later on a machine at UTC+2 at 00:30 and at UTC-8 at 19:30 (local calendar day != UTC calendar day; events: body edit, kind change, new note, R, Rp, D; depth one less), plus a small directory with a 140-note page of 12 KiB whose LAST note is edited (events: that edit, a body edit, a new note, R, Rp, D), over 18 events: edit a body, change a "
             "todo's kind, add a ZID-less note, delete a note, move a note between pages whose header "
             "blocks give one property different values, add a page, "
             "delete a page, rename a page, bring the vanished page back byte-identical, edit title-line tags, edit a section header, drop the "
@@ -467,6 +494,9 @@ def run(ctx: F.Ctx):
     # the long page, in a directory of its own
     sl = make_long_init(day)
     total.merge(B.search(ctx, [sl], LONG_EVENTS, step, depth, max_states=None if ctx.quick else 30000))
+    # the zones, to a smaller depth
+    for sz in make_zone_inits(day):
+        total.merge(B.search(ctx, [sz], ZONE_EVENTS, step, depth - 1, max_states=None if ctx.quick else 30000))
     total.samples = total.samples[:4]
     return total, meta
 
@@ -475,7 +505,12 @@ def replay(case, ctx: F.Ctx) -> F.Outcome:
     """Re-run one history from its initial state without the explorer."""
     day = H.rotate(_DAYS, ctx.seed)[0]
     H.freeze(day)
-    inits = make_inits(day) if case["init"] != "long-page" else [make_long_init(day)]
+    if case["init"] == "long-page":
+        inits = [make_long_init(day)]
+    elif "@" in case["init"]:
+        inits = make_zone_inits(day)
+    else:
+        inits = make_inits(day)
     try:
         st = next(s for s in inits if s.extra["init"] == case["init"])
         out = F.Outcome()
